@@ -207,14 +207,14 @@ KANI_UNITS["C43"] = dict(
              ("crates/varpulis-lsp/src/navigation.rs", "__vpv_c43b", "contracts/kani/c43_nav.rs"),
              ("crates/varpulis-lsp/src/hover.rs", "__vpv_c43c", "contracts/kani/c43_hover.rs"),
              ("crates/varpulis-lsp/src/completion.rs", "__vpv_c43d", "contracts/kani/c43_completion.rs")],
-    grade="K-bounded(ALL valid UTF-8 documents of <= 2 bytes (thorough 3); positions 0..=len+1)", level="other", timeout=3600, harness_timeout=1500, jobs=8,
+    grade="K-bounded(exhaustive: the 43 documents of <= 2 characters over {a _ space newline é 1}, every position / line / column in and just past them)", level="other", timeout=3600, harness_timeout=1500, jobs=8,
     functions=["varpulis-lsp/src/diagnostics.rs: position_to_line_col, get_error_end_column", "varpulis-lsp/src/navigation.rs: byte_offset_to_position, word_at_position",
                "varpulis-lsp/src/hover.rs: get_word_at_position", "varpulis-lsp/src/completion.rs: get_completion_context"],
-    explanation=("PARTIAL, BOUNDED (position helpers only). For every valid UTF-8 document up to the stated size (this includes newlines and every 2-byte character), and every "
+    explanation=("PARTIAL, BOUNDED (position helpers only). Exhaustively for the 43 documents of at most two characters over an alphabet with a newline and a 2-byte character, and every "
                  "position from 0 to just past the end: the helpers return without panicking; line <= number of newlines; column <= number of characters; a returned word is "
                  "non-empty and not longer than the document; an error range's end is after its start. NOT covered: the request handlers themselves (tower-lsp, parser), "
                  "completion and semantic tokens."),
-    assumptions=["documents of at most 2 (thorough: 3) bytes — a bounded stand-in for 'all documents'"],
+    assumptions=["43 concrete documents (bounded exhaustive enumeration executed by CBMC) — a stand-in for 'all documents'"],
 )
 
 KANI_UNITS["C05"] = dict(
